@@ -386,20 +386,15 @@ def evaluate_ifdefs(text):
 
         kind = mo.lastgroup
         value = mo.group()
+        # A block nested inside a discarded block is discarded whatever its condition.
         if kind == "IFDEF":
             word = value.split()[-1]
-            if word == "HERA_PY":
-                keeping.append(True)
-            else:
-                keeping.append(False)
+            keeping.append(keeping[-1] and word == "HERA_PY")
         elif kind == "IFNDEF":
             word = value.split()[-1]
-            if word != "HERA_PY":
-                keeping.append(True)
-            else:
-                keeping.append(False)
+            keeping.append(keeping[-1] and word != "HERA_PY")
         elif kind == "ELSE" and len(keeping) > 1:
-            keeping[-1] = not keeping[-1]
+            keeping[-1] = keeping[-2] and not keeping[-1]
         elif kind == "ENDIF" and len(keeping) > 1:
             keeping.pop()
 
